@@ -801,6 +801,9 @@ def run_case(desc, ctx):
         ctx.check(len(idx) == want, "knn", "count", mech,
                   "query(q,k) must return min(k,n)=%d indices, got %d" % (want, len(idx)), tree=tree_small, query=qsmall,
                   discarded=why)
+        if len(idx) != want and n <= 12 and not ctx.samples:
+            ctx.sample({"tree": tree_small, "knn_query": {"q": q64.tolist(), "k": k}, "returned": idx,
+                        "problem": "min(k,n)=%d indices expected" % want})
         dsel = dist[idx] if idx else np.zeros(0)
         if dsel.size >= 2:
             inc = dsel[1:] >= dsel[:-1] * (1.0 - tol)
@@ -832,7 +835,7 @@ def run_case(desc, ctx):
             ctx.check(okd, "knn", "distances", mech, "the returned distances must be the k smallest distances to the query point",
                       tree=tree_small, query=qsmall, returned_distances=got[:40].tolist(), expected_distances=exp[:40].tolist(),
                       missed_points=miss, discarded=why)
-            if okd and n <= 12 and n >= 4 and want >= 2 and info.levels >= 2:
+            if okd and n <= 12 and n >= 4 and want >= 2 and info.levels >= 2 and not ctx.samples:
                 ctx.sample({"tree": tree_small, "knn_query": {"q": q64.tolist(), "k": k}, "returned": idx,
                             "distances": [round(float(x), 6) for x in dsel]})
 
